@@ -31,7 +31,7 @@ use crate::{
 // ---------------------------------------------------------------------------------------------------------------
 // (a) op histories, Ristretto (the instantiation that owns the process-wide cells)
 
-pub const OPS: [&str; 20] = [
+pub const OPS: [&str; 21] = [
     "params(2,1)",
     "params(2,2)",
     "params(4,1)",
@@ -52,6 +52,7 @@ pub const OPS: [&str; 20] = [
     "params(2,16)",
     "prove-refused-promise",
     "batch-mixed-sizes-two-defects",
+    "batch-inconsistent-bit-lengths",
 ];
 
 fn digest(parts: &[&[u8]]) -> Vec<u8> {
@@ -148,6 +149,31 @@ fn run_op<P: G>(op: &str, kept: &mut Vec<RangeParameters<P>>) -> Vec<u8> {
                 Ok(p) => [b"PROOF:".to_vec(), P::to_bytes(&p)].concat(),
                 Err(e) => format!("ERR:{}", crate::api::err_name(&e)).into_bytes(),
             }
+        },
+        "batch-inconsistent-bit-lengths" => {
+            // two members over separately built parameter sets that do NOT agree (bit lengths 2 and 4): the refusal, error text
+            // included, is the result -- whatever parameter objects earlier calls built, compared and dropped
+            let wa = Wit::default_for(&cfg_a);
+            let ba = build::<P>(&cfg_a, &wa).honest();
+            let cfg_w = Cfg::new(4, 1, 1, 1);
+            let ww = Wit::default_for(&cfg_w);
+            let bw = build::<P>(&cfg_w, &ww).honest();
+            let pa = lib_prove_honest(&ba, &CTX_A, &mut HRng::chacha(4));
+            let pw = lib_prove_honest(&bw, &CTX_A, &mut HRng::chacha(5));
+            let mut out = Vec::new();
+            for order in [0, 1] {
+                let (sts, proofs) = if order == 0 {
+                    (vec![ba.statement.clone(), bw.statement.clone()], vec![P::proof_clone(&pa), P::proof_clone(&pw)])
+                } else {
+                    (vec![bw.statement.clone(), ba.statement.clone()], vec![P::proof_clone(&pw), P::proof_clone(&pa)])
+                };
+                let mut ts = vec![CTX_A.transcript(), CTX_A.transcript()];
+                out.extend(match P::verify(&mut ts, &sts, &proofs, VerifyAction::VerifyOnly) {
+                    Ok(_) => b"OK;".to_vec(),
+                    Err(e) => format!("{:?};", e).into_bytes(),
+                });
+            }
+            out
         },
         "batch-mixed-sizes-two-defects" => {
             // members of two aggregation sizes, each with its own defect (an undecodable A in the single, an undecodable B in
@@ -755,7 +781,7 @@ fn source_scan() -> Value {
 }
 
 pub fn run(rep: &mut Report) {
-    rep.rule = "(a) every sequence over the 20-op alphabet {a batch of two aggregation sizes with two different defects (the full error text is the result), a prove refused for its promise, build params for 16 parties, degree-6 seeded prove, recovery (right / other seed) from a degree-6 proof made elsewhere, build params x3, prove A/B, prove with a witness that does not open the commitment, verify valid/invalid, seeded recover, batch of two, batch abandoned at \
+    rep.rule = "(a) every sequence over the 21-op alphabet {a batch over two parameter sets that disagree on the bit length (the error text is the result), a batch of two aggregation sizes with two different defects (the full error text is the result), a prove refused for its promise, build params for 16 parties, degree-6 seeded prove, recovery (right / other seed) from a degree-6 proof made elsewhere, build params x3, prove A/B, prove with a witness that does not open the commitment, verify valid/invalid, seeded recover, batch of two, batch abandoned at \
                 its second member (wrong round count / undecodable point), pedersen gens, drop-all} of length <= 3 (thorough 4), one fresh process per sequence, each op's serialised result against \
                 its result alone in a fresh process (and a second fresh process); (b) every pair (thorough: also triples) of ops {prove A, \
                 prove B, verify valid, verify invalid, clone+drop params, build other capacity} on threads sharing one parameter object (plus a 160-member batch with two different defects racing a short verification, one preemption), \
